@@ -648,6 +648,28 @@ def r19_9(ctx):
                         ctx.violation(R, 'sorted:' + name, 'a batch skips sorting AND merging when its keys are in non-decreasing order (%s): a batch that repeats a key hands the duplicate to the builder (or resolves it differently from other batch sizes)' % sorted(ops), fn=g)
                         continue
                 ctx.check(R, okp, 'sorted:' + name, 'the rows of a batch are inserted without having been sorted first: the build fails with OutOfOrder (or, for input that happens to be sorted per batch, depends on the batch size)', fn=g)
+    # (c') a test over adjacent rows that decides whether a batch needs merging must look at the KEYS: two rows with the same key and
+    # different values are a repeat, although they are not equal rows
+    for name in (KV, UN):
+        g = b.fn(name)
+        if g is None:
+            continue
+        for cl in [h for h in b.fn_list if h.kind == 'Closure' and h.path.startswith(name + '::')]:
+            rowcmp = [h_ for _, t in cl.calls() for h_ in [cl.callee(t) or ''] if 'tuple::<impl' in h_ and h_.rsplit('::', 1)[-1] in ('eq', 'ne', 'lt', 'le', 'gt', 'ge')]
+            if not rowcmp:
+                continue
+            # only predicates (closures returning bool) are tests; comparators handed to a sort return Ordering
+            if cl.local_ty(0) != 'bool':
+                continue
+            # a test whose one outcome only panics is an assertion about the rows, not a choice between two ways of building
+            ends = {}
+            for q in explore(g, max_visits=1, havoc=True, limit=3000):
+                for d in q.decisions:
+                    if any(x[0] == 'closure' and x[1] == cl.path for x in walk(d[2])) and d[3] in (0, 1):
+                        ends.setdefault(d[3], set()).add(q.end)
+            if ends and any(not (es & {'return', 'cut'}) for es in ends.values()):
+                continue
+            ctx.violation(R, 'repeat-test:' + name, 'a test over the rows of a batch compares whole (key, value) rows (%s): a key repeated with a different value is not recognised as a repeat and reaches the builder unmerged (DuplicateKey, or a result that depends on the batch size)' % rowcmp[0].rsplit('::', 1)[-1], fn=cl)
     # (d) what is collected is sent on
     for f in b.fn_list:
         if f.kind == 'Closure' and f.path.startswith('merge::Sorters') and '::new::' in f.path and f.path.count('{closure') == 1:
